@@ -28,6 +28,13 @@ def gen_arcswap():
         m = re.search(pat, text)
         return m.start() if m else -1
 
+    # the per-thread share: exactly one of the two known forms, else fail closed
+    old_share = pos(r"\*max_pw = \*pw \+ W::from_f64\(\(max_part_weight - \*pw\)\.to_f64\(\)\.unwrap\(\) / thread_count as f64\) \.unwrap\(\);") >= 0
+    new_share = pos(r"\*max_pw = \*pw \+ \(max_part_weight - \*pw\) / W::from_usize\(thread_count\)\.unwrap\(\);") >= 0
+    if old_share == new_share:
+        raise Fail("the per-thread share `*max_pw = *pw + ...` is neither the f64 round trip nor the division in W")
+    share_form = "W" if new_share else "f64"
+
     order = [
         pos(r"locks\[vertex\] \.compare_exchange\(false, true,"),
         pos(r"let _lock_guard = defer\("),
@@ -48,8 +55,7 @@ def gen_arcswap():
         ("target_weight_is_local_plus_vertex", pos(r"let target_part_weight = weight \+ part_weights\[target_part\];") >= 0),
         ("move_updates_local_weights", pos(r"part_weights\[initial_part\] -= weight; part_weights\[target_part\] \+= weight;") >= 0),
         ("gain_is_recorded", pos(r"metadata\.move_count \+= 1; metadata\.edge_cut_gain \+= gain;") >= 0),
-        ("headroom_divided_by_thread_count",
-         pos(r"\*max_pw = \*pw \+ W::from_f64\(\(max_part_weight - \*pw\)\.to_f64\(\)\.unwrap\(\) / thread_count as f64\) \.unwrap\(\);") >= 0),
+        ("headroom_divided_by_thread_count", share_form in ("f64", "W")),
         ("merge_subtracts_tc_minus_1_copies", pos(r"\*pw = pw_sum - W::from_usize\(thread_count - 1\)\.unwrap\(\) \* \*pw;") >= 0),
         ("pass_loop_exits_on_zero_gain", pos(r"if pass_metadata\.edge_cut_gain == 0 \{ break; \}") >= 0),
         ("chunks_from_work_share",
@@ -65,6 +71,10 @@ def gen_arcswap():
     out += "From Coq Require Import List Bool.\nImport ListNotations.\n"
     for name, ok in facts:
         out += "Definition arcswap_%s : bool := %s.\n" % (name, coq_bool(ok))
+    out += ("(* the per-thread share of a headroom: true = divided in the weight type W\n"
+            "   (`(max_part_weight - *pw) / W::from_usize(thread_count).unwrap()`: exact truncating quotient for i64),\n"
+            "   false = through f64 (`W::from_f64((max_part_weight - *pw).to_f64().unwrap() / thread_count as f64).unwrap()`) *)\n")
+    out += "Definition arcswap_share_in_W : bool := %s.\n" % coq_bool(share_form == "W")
     out += "Definition arcswap_source_shape : list bool :=\n  [%s].\n" % ";\n   ".join("arcswap_" + n for n, _ in facts)
     return out
 
@@ -88,7 +98,9 @@ PROP = dict(
          "decides (a vertex has a positive gain into a part q with load[q] <= cap < load[q] + w, while a looser cap -- heaviest "
          "input part, or ideal over the loaded parts only -- would leave every worker headroom for it): `weightless_*` (a part "
          "holds no weight: unused id below the maximum or only zero-weight vertices) and `beyondtol_*` (input already beyond "
-         "the tolerance: heaviest part above (1+x)*ideal, Some(x) incl. Some(0.0)); `budgetsum_*` (one random case in ten): 5/7/8/10/11 vertices on 2..4 workers with a shorter last chunk, one positive-gain "
+         "the tolerance: heaviest part above (1+x)*ideal, Some(x) incl. Some(0.0)); `highdeg_*` (one in a hundred): hubs of degree 30..70, mostly exactly 33 and 65, often built so that the hub's last "
+         "neighbour decides the sign of its gain; `big_i64` (one in 25): i64 totals 2^53..2^62, a heavy vertex next to a light one, "
+         "one worker (a share computed through f64 over-allocates there); `budgetsum_*` (one random case in ten): 5/7/8/10/11 vertices on 2..4 workers with a shorter last chunk, one positive-gain "
          "mover per chunk into the same part, each weighing in (headroom/tc, headroom*ipt/len], cap set by None or Some(x) -- the "
          "SUM of the per-thread budgets decides; one random case in ten (`f64x_*`) runs with f64 weights whose sums are exact (integers x 1, 1/2, 1/4, 1/8) "
          "and is replayed through the f64 instance of the machine; one random case in ten runs with f64 vertex "
@@ -114,10 +126,12 @@ PROP = dict(
         "the hardware memory model (acquire/release lock, relaxed part ids) is not covered",
         "i64 vertex weights >= 0 and i64 edge weights whose sums do not overflow; for |cap| + total vertex weight < 2^53 the f64 share "
         "of the code is PROVED to be the exact quotient and the f64 machine to run exactly like the exact one (C05_f64_share_irrelevant); "
-        "the runs still use headroom_checked as a cross-check; above 2^53 the strict caps clause is REFUTED (model witness + the "
-        "implementation, known-finding class arcswap-share-rounding-above-2p53) and holds up to cap + |cap|/2^51 (proved)",
+        "with the share divided in W (the form the translator reads from the repaired source) the strict caps hold for all integer weights "
+        "(C05_arcswap_caps_i64_all); for the old f64 round trip the strict clause is REFUTED above 2^53 (model witness + the implementation) "
+        "and holds up to cap + |cap|/2^51 (proved)",
         "f64 vertex weights: mutual exclusion, accounting, ids, move_count, no panic, termination are proved for every f64 weight "
-        "vector (instance wops_f64); the strict caps clause is REFUTED at magnitude 2^52 (model witness + the implementation) and has "
+        "vector (instance wops_f64); the strict caps clause is REFUTED at magnitude 2^52 (model witness + the implementation; open known "
+        "finding arcswap-f64-budget-rounding: f64 weights with 4*tc*max(|cap|,total)+tc >= 2^53) and has "
         "no theorem; model = code for f64 weights is replay on exact-sum weights (integers x 2^-k) only",
         "symmetric adjacency (as sets of neighbours and as summed weights), neighbour ids < n",
         "the cap is trunc(ideal + max_imbalance * ideal) as computed in f64 by the code (cap_of); its relation to the real number is not proved",
